@@ -231,9 +231,90 @@ macro_rules! fri_cfg {
                             .collect()
                     })
                     .collect();
-                let open_data = data.iter().zip(points.iter()).map(|(d, p)| (d, p.clone())).collect();
+                let open_data: Vec<_> = data.iter().zip(points.iter()).map(|(d, p)| (d, p.clone())).collect();
+                if case.fault_kind() == "skip_height" {
+                    // a prover that withholds the reduced opening of one input height from the fold chain (see `open_withholding`)
+                    let (opened, _) = <MyPcs as Pcs<Challenge, Challenger>>::open(pcs, open_data.clone(), &mut ch.clone());
+                    let proof = open_withholding(case, &open_data, &opened, &mut ch);
+                    return Statement { sizes, commits, points, opened, proof };
+                }
                 let (opened, proof) = <MyPcs as Pcs<Challenge, Challenger>>::open(pcs, open_data, &mut ch);
                 Statement { sizes, commits, points, opened, proof }
+            }
+
+            /// The input height a dishonest prover leaves out of the fold chain: the tallest height class strictly between the
+            /// final height and the global maximum (None: every shape of this case has no such class).
+            fn withheld_height(case: &FriCase) -> Option<usize> {
+                let hs: Vec<usize> = case.batches.iter().flat_map(|b| b.mats.iter().map(|m| m.log_h + case.log_blowup)).collect();
+                let top = *hs.iter().max()?;
+                let fin = case.log_blowup + case.log_final_poly_len;
+                hs.iter().copied().filter(|&h| h < top && h > fin).max()
+            }
+
+            /// The body of `TwoAdicFriPcs::open` (p3-fri 0.6.3) written out on the public `prove_fri`, with the reduced-opening
+            /// vector of `withheld_height` NOT handed to the commit phase: the fold schedule is then chosen as if that height did
+            /// not exist (with max_log_arity >= 2 it steps over it).  The claimed evaluations stay the honest ones.
+            fn open_withholding(
+                case: &FriCase,
+                open_data: &[(&<MyPcs as Pcs<Challenge, Challenger>>::ProverData, Vec<Vec<Challenge>>)],
+                opened: &[Vec<Vec<Vec<Challenge>>>],
+                ch: &mut Challenger,
+            ) -> Proof {
+                use p3_challenger::FieldChallenger;
+                use p3_commit::Mmcs;
+                use p3_field::TwoAdicField;
+                use p3_matrix::Matrix;
+                let p = perm();
+                let val_mmcs = MyMmcs::new(MyHash::new(p.clone()), MyCompress::new(p), case.cap_height);
+                let fri = FriParameters {
+                    log_blowup: case.log_blowup,
+                    log_final_poly_len: case.log_final_poly_len,
+                    max_log_arity: case.max_log_arity,
+                    num_queries: case.num_queries,
+                    commit_proof_of_work_bits: case.pow_bits,
+                    query_proof_of_work_bits: case.query_pow_bits,
+                    mmcs: ChallengeMmcs::new(val_mmcs.clone()),
+                };
+                for round in opened {
+                    for mat in round {
+                        for point in mat {
+                            ch.observe_algebra_slice(point);
+                        }
+                    }
+                }
+                let alpha: Challenge = ch.sample_algebra_element();
+                // log_height -> (alpha power, reduced opening vector in bit-reversed order)
+                let mut reduced: std::collections::BTreeMap<usize, (Challenge, Vec<Challenge>)> = std::collections::BTreeMap::new();
+                for ((data, points), claimed_round) in open_data.iter().zip(opened) {
+                    let mats = val_mmcs.get_matrices(*data);
+                    for ((mat, points_for_mat), claimed_mat) in mats.iter().zip(points).zip(claimed_round) {
+                        let height = mat.height();
+                        let width = mat.width();
+                        let log_height = p3_util::log2_strict_usize(height);
+                        let (alpha_pow, ro) = reduced.entry(log_height).or_insert_with(|| (Challenge::ONE, vec![Challenge::ZERO; height]));
+                        let w = F::two_adic_generator(log_height);
+                        for (z, ys) in points_for_mat.iter().zip(claimed_mat) {
+                            for (i, ro_i) in ro.iter_mut().enumerate() {
+                                let x = F::GENERATOR * w.exp_u64(p3_util::reverse_bits_len(i, log_height) as u64);
+                                let inv = (*z - x).inverse();
+                                let row = &mat.values[i * width..(i + 1) * width];
+                                let mut ap = *alpha_pow;
+                                let mut acc = Challenge::ZERO;
+                                for (y, p_at_x) in ys.iter().zip(row) {
+                                    acc += ap * (*y - *p_at_x);
+                                    ap *= alpha;
+                                }
+                                *ro_i += acc * inv;
+                            }
+                            *alpha_pow *= alpha.exp_u64(width as u64);
+                        }
+                    }
+                }
+                let log_global_max_height = *reduced.keys().next_back().expect("at least one matrix");
+                let withheld = withheld_height(case);
+                let fri_inputs: Vec<Vec<Challenge>> = reduced.into_iter().rev().filter(|(h, _)| Some(*h) != withheld).map(|(_, (_, ro))| ro).collect();
+                let folding: p3_fri::TwoAdicFriFoldingForMmcs<F, MyMmcs> = p3_fri::TwoAdicFriFolding(core::marker::PhantomData);
+                p3_fri::prover::prove_fri::<_, F, Challenge, MyMmcs, ChallengeMmcs, Challenger>(&folding, &fri, fri_inputs, ch, log_global_max_height, open_data, &val_mmcs)
             }
 
             fn native_verify(case: &FriCase, pcs: &MyPcs, st: &Statement) -> Verdict {
@@ -286,6 +367,11 @@ macro_rules! fri_cfg {
                 let need = |n: usize, what: &str| if n == 0 { Err(format!("{what} is empty for this proof shape")) } else { Ok(n) };
                 match kind.as_str() {
                     "none" => Ok(json!({"kind": "none"})),
+                    // applied while proving (the prover withheld one height class from the fold chain)
+                    "skip_height" => match withheld_height(case) {
+                        Some(h) => Ok(json!({"kind": kind, "withheld_log_height": h})),
+                        None => Err("no input height strictly between the final height and the maximum".into()),
+                    },
                     "opened_value" => {
                         let b = case.fi("batch") % need(st.opened.len(), "opened values")?;
                         let m = case.fi("mat") % need(st.opened[b].len(), "batch")?;
@@ -470,9 +556,12 @@ macro_rules! fri_cfg {
                     out.unsupported = Some("driver: empty batch / zero-width matrix".into());
                     return out;
                 }
+                // a prover-side fault (skip_height) is applied while proving: the honest reference is proven without it
+                let prover_side = case.fault_kind() == "skip_height";
+                let honest_case = if prover_side { FriCase { fault: json!({"kind": "none"}), ..case.clone() } } else { case.clone() };
                 let proved = catch_unwind(AssertUnwindSafe(|| {
                     let pcs = make_pcs(case);
-                    let st = prove(case, &pcs, seed);
+                    let st = prove(&honest_case, &pcs, seed);
                     (pcs, st)
                 }));
                 let (pcs, honest) = match proved {
@@ -486,7 +575,21 @@ macro_rules! fri_cfg {
                 out.roots_input = honest.commits.iter().map(|c| c.num_roots()).collect();
                 out.roots_commit = honest.proof.commit_phase_commits.iter().map(|c| c.num_roots()).collect();
                 out.native_honest = native_verify(case, &pcs, &honest);
-                let mut st = honest.clone();
+                let mut st = if prover_side {
+                    match catch_unwind(AssertUnwindSafe(|| prove(case, &pcs, seed))) {
+                        Ok(st) => st,
+                        Err(p) => {
+                            out.fault_inapplicable = Some(format!("dishonest prover refuses: {}", short(panic_msg(p))));
+                            return out;
+                        }
+                    }
+                } else {
+                    honest.clone()
+                };
+                if prover_side {
+                    // report the schedule the dishonest prover followed
+                    out.log_arities = st.proof.query_proofs.first().map(|q| q.commit_phase_openings.iter().map(|o| o.log_arity as usize).collect()).unwrap_or_default();
+                }
                 match apply_fault(case, &mut st) {
                     Ok(site) => out.fault_site = site,
                     Err(why) => {
